@@ -134,8 +134,15 @@ harnesses! {
         (h_send::c07_send_bcast_15, 7),
         (h_send::c07_send_bcast_32, 7),
         (h_misc::c17_oversize, 7),
-        (h_misc::c17_bad_header, 7),
-        (h_misc::c17_bad_member, 7),
+        (h_misc::c17_bad_header_0, 7),
+        (h_misc::c17_bad_header_5, 7),
+        (h_misc::c17_bad_header_9, 7),
+        (h_misc::c17_bad_header_tag11, 7),
+        (h_misc::c17_bad_header_tag255, 7),
+        (h_misc::c17_bad_member_trunc, 7),
+        (h_misc::c17_bad_member_state, 7),
+        (h_misc::c17_bad_member_state255, 7),
+        (h_misc::c17_bad_member_count, 7),
         (h_misc::c17_trailing_byte, 7),
         (h_misc::c06_fuzz_gossip_7, 7),
         (h_misc::c06_fuzz_gossip_9, 7),
@@ -162,6 +169,9 @@ harnesses! {
         (ops_data::d_gossip, 7),
         (ops_data::d_broadcast, 7),
         (ops_data::d_turn_undead, 7),
+        (ops_data::d_turn_undead_never, 7),
+        (ops_data::d_turn_undead_next, 7),
+        (ops_data::d_announce_32, 7),
         (ops_data::d_turn_undead_k2, 7),
         (ops_data::d_ping_upd, 7),
         (ops_data::d_ping_upd_k2, 7),
